@@ -12,7 +12,7 @@ def run(chk):
                 "altered inputs must yield an error and no response; honest runs must release, give equal challenges on both sides and a joint proof list that "
                 "verifies with the keyshare labelling. Non-trivial = distinct altered case.")
     chk.assumptions = ["commitment hash idealised as injective in the model", "only 1024-bit keys (no 2048-bit key available offline within the time budget)",
-                       "the legacy keyshare generation (ProofP with P) is not exercised",
+                       "the legacy keyshare generation (KeyshareResponseLegacy, ProofP with P) is exercised for completeness of disclosure builders only (24 runs), not modelled",
                        "honest non-revocation proofs matching known finding D10 are discarded (counted), see DESIGN.md section 8"]
     cfg = "Keyshare.mc.thorough.cfg" if thorough else "Keyshare.mc.quick.cfg"
     g = vplib.tlc_mc("KeyshareGen", cfg, workers=1, timeout=1800)
